@@ -113,6 +113,10 @@ func runCaseR(m *Model, c Case) ([]Diff, string) {
 		case "iter-dry":
 			opts = append(opts, gtree.WithDryRun(), gtree.WithFileExtensions(c.Exts))
 		}
+		if c.Massive {
+			// only used for single-root documents without faults, where the massive result is determined
+			opts = append(opts, gtree.WithMassive(context.Background()))
+		}
 		w := &faultWriter{failAt: c.WFail, short: c.Short}
 		var err error
 		if c.Alias {
@@ -331,6 +335,10 @@ func runVerify(m *Model, c Case) ([]Diff, string) {
 	before := snapshot(jail)
 	target := filepath.Join(jail, c.Target)
 	opts := append([]gtree.Option{gtree.WithTargetDir(target)}, strayOpts(c)...)
+	if c.Massive {
+		// single-root trees only: then the verdict and the lists of the massive mode are determined
+		opts = append(opts, gtree.WithMassive(context.Background()))
+	}
 	if c.Strict {
 		opts = append(opts, gtree.WithStrictVerify())
 	}
